@@ -13,11 +13,11 @@ def key_native(k):
         return k
 
 
-def tree_view(n, flags=('prio',), md=False):
+def tree_view(n, flags=('prio',), md=False, kinds=True):
     """nested view of an (un-evaluated) node tree: kind, chosen effective flags, content"""
     from awesomeyaml.nodes.composed import ComposedNode
     from awesomeyaml.nodes.function import FunctionNode
-    d = {'kind': node_kind(n)}
+    d = {'kind': node_kind(n)} if kinds else {}
     if 'prio' in flags:
         d['prio'] = n.ayns.priority
     if 'del' in flags:
@@ -26,8 +26,12 @@ def tree_view(n, flags=('prio',), md=False):
         d['xdel'] = n.ayns.explicit_delete
     if 'new' in flags:
         d['new'] = bool(n.ayns.allow_new)
+    if 'xnew' in flags:
+        d['xnew'] = n._allow_new
     if 'safe' in flags:
         d['safe'] = bool(n.ayns.safe)
+    if 'xsafe' in flags:
+        d['xsafe'] = n._safe
     if 'src' in flags:
         d['src'] = n.ayns.source_file
     if md:
@@ -41,7 +45,7 @@ def tree_view(n, flags=('prio',), md=False):
             d['func'] = f if isinstance(f, str) else getattr(f, '__name__', repr(f))
         ch = []
         for name, c in n.ayns.named_children():
-            ch.append((util.typed(key_native(name)), tree_view(c, flags, md)))
+            ch.append((util.typed(key_native(name)), tree_view(c, flags, md, kinds)))
         if isinstance(n, dict):
             ch.sort(key=lambda kv: repr(kv[0]))
         d['ch'] = tuple(ch)
@@ -62,7 +66,9 @@ def tree_view(n, flags=('prio',), md=False):
 def _attr_val(v):
     if isinstance(v, (list, tuple)):
         return tuple(str(x) for x in v)
-    if isinstance(v, (str, int, float, bool, type(None))):
+    if isinstance(v, str):
+        return repr(str(v))
+    if isinstance(v, (int, float, bool, type(None))):
         return repr(v)
     return type(v).__name__
 
